@@ -83,7 +83,7 @@ def diff(real, exp, path="", tol_keys=TOL_KEYS, prune_zero=False, all_tolerant=F
             extra, missing = sorted(rk - ek), sorted(ek - rk)
             return (path, "extra-key" if extra else "missing-key", extra or None, missing or None)
         for k in sorted(ek):
-            d = diff(real[k], exp[k], path + "/" + k, tol_keys, prune_zero, all_tolerant, drop_names, k)
+            d = diff(real[k], exp[k], path + "/" + (k if k != "" else "''"), tol_keys, prune_zero, all_tolerant, drop_names, k)
             if d:
                 return d
         return None
